@@ -25,6 +25,9 @@ TRUSTED = ["hand model ESRVerif/Model/Codelen.lean of convert_params lines 110-2
 ASSUMPTIONS = ["theta_ML is a float ndarray of length >= nparam, nparam <= max_param (as main passes it)",
                "the likelihood closure is a deterministic function of the parameter vector",
                "the argument negloglike is the likelihood at theta_ML (for the clause 'reported nll is the likelihood at the reported parameters' when nothing is snapped)"]
+# tables whose committed version may stand in as a hand-written model when the translator cannot read the source;
+# value = the correspondence that then ties it to the code (common.prove / common.decide)
+FALLBACK = {'Codelen': 'real convert_params with captured Hessians vs the Lean codelen model (decisions exact, magnitudes 1e-9)'}
 MODELLED = ["test_all_Fisher.py:convert_params"]
 
 BASES = ["x", "1", "x**2", "x**3", "inv(x)", "sqrt(x)", "log(x)"]
